@@ -196,8 +196,7 @@ def plan(tier, seed):
 
     add(1, 1, 1, 3, 4, 2)
     rs = 4 if tier == 'quick' else 1
-    tasks.extend(('plain', 'mc.props.c10:t_replace', {'L': 2, 'shard': s_, 'nshard': 32, 'stride': rs, 'offset': seed, 'with_cfg': False}) for s_ in range(32))
-    tasks.extend(('plain', 'mc.props.c10:t_replace', {'L': 2, 'shard': s_, 'nshard': 16, 'stride': rs * 16, 'offset': seed, 'with_cfg': True}) for s_ in range(16))
+    tasks.extend(('plain', 'mc.props.c10:t_replace', {'L': 2, 'shard': s_, 'nshard': 32, 'stride': rs, 'offset': seed, 'with_cfg': True}) for s_ in range(32))
     add(1, 1, 1, 3, 3, 1, stack=['$'], eps='ε')
     add(1, 1, 1, 3, 3, 1, stack=['∅'], eps='')
     add(1, 1, 1, 3, 3, 1, scheme='p')
@@ -222,7 +221,7 @@ def plan(tier, seed):
         add(2, 1, 1, 2, 3, 8, stride=4, stack=['∅'])
         add(3, 1, 1, 2, 3, 8, stride=2, fbits=[7], with_cfg=False)
         add(3, 1, 1, 2, 3, 8, stride=16, fbits=[7])
-        bounds = 'replace family (one push, two replace moves into one state, one pop; 2 stack symbols, 2 letters) stride 1/4; PDA(1,1,1,<=3) all variants; PDA(2,1,1,<=2) all; PDA(2,1,1,3) stride 1/16 (1/4 without PDA->CFG); PDA(2,2,1,<=2), PDA(2,1,2,<=2) stride 1/8; Gamma containing $ / ∅, state names q_accept/q_initial/M1; PDA(3,1,1,<=2) with |F|=3; languages on words <= 4 (k=1) / 3'
+        bounds = 'replace family (one push, two replace moves into one state, one pop; 2 stack symbols, 2 letters) stride 1/4 (with PDA->CFG); PDA(1,1,1,<=3) all variants; PDA(2,1,1,<=2) all; PDA(2,1,1,3) stride 1/16 (1/4 without PDA->CFG); PDA(2,2,1,<=2), PDA(2,1,2,<=2) stride 1/8; Gamma containing $ / ∅, state names q_accept/q_initial/M1; PDA(3,1,1,<=2) with |F|=3; languages on words <= 4 (k=1) / 3'
     else:
         add(2, 1, 1, 3, 4, 128, with_cfg=False)
         add(2, 1, 1, 3, 4, 128, stride=4)
